@@ -244,9 +244,7 @@ impl Mp4Track {
             let mut sample_count = 0u32;
             for traf in self.trafs.iter() {
                 if let Some(ref trun) = traf.trun {
-                    sample_count = sample_count
-                        .checked_add(trun.sample_count)
-                        .expect("attempt to sum trun sample_count with overflow");
+                    sample_count = sample_count.saturating_add(trun.sample_count);
                 }
             }
             sample_count
@@ -388,9 +386,7 @@ impl Mp4Track {
                 if sample_count > (global_idx - offset) {
                     return Some((traf_idx, (global_idx - offset) as _));
                 }
-                offset = offset
-                    .checked_add(sample_count)
-                    .expect("attempt to sum trun sample_count with overflow");
+                offset = offset.checked_add(sample_count)?;
             }
         }
         None
